@@ -533,10 +533,11 @@ pub fn take_panics() -> Vec<PanicRec> {
     std::mem::take(&mut *PANICS.lock().unwrap_or_else(|e| e.into_inner()))
 }
 
-/// Short stable description of a panic site: file:line with /repo prefix stripped.
+/// Short stable description of a panic site: source file with the /repo prefix and the line
+/// number stripped (stable under unrelated edits of the file).
 pub fn panic_site(p: &PanicRec) -> String {
     let loc = p.location.trim_start_matches("/repo/");
-    loc.to_string()
+    loc.rsplit_once(':').map(|x| x.0).unwrap_or(loc).to_string()
 }
 
 // ---------------------------------------------------------------------------------------------
